@@ -596,8 +596,9 @@ def r06_6(chk, repo):
         ev = dp.ev(q, opaque={"extra"})
         chk.saw(DP, q)
         ex = [v for k, v in ev.defs.items() if k[1] == "extra"]
-        oke = bool(ex) and ex[0].key() in (f"{ev.param_names[1]} + {rad}[(slice None None None), numpy.newaxis]",
-                                            f"{rad}[(slice None None None), numpy.newaxis] + {ev.param_names[1]}")
+        col = (f"{rad}[(slice None None None), numpy.newaxis]", f"{rad}[(slice None None None), None]", f"{rad}.reshape(-1, 1)",
+               f"{rad}.reshape((tuple (-1 1)))")      # the (N,) radii as an (N, 1) column, in any spelling
+        oke = bool(ex) and any(ex[0].key() in (f"{ev.param_names[1]} + {c}", f"{c} + {ev.param_names[1]}") for c in col)
         chk.ob("R06.6", DP, q, "extra = vdW radius (per atom) + buffer", oke, fingerprint=f"{q}:extra", found=str(ex[0]) if ex else None)
         it = seq_items(ev.returns[0].value)
         okb = bool(it) and len(it) == 2 and it[0].key() == f"numpy.min(-$extra + {pos}, axis=0)" and it[1].key() == f"numpy.max($extra + {pos}, axis=0)"
